@@ -1,7 +1,7 @@
 """C02 - Fail-closed totality of decisions."""
 import sys
 
-from .. import gen, specs, guardlib
+from .. import core, gen, specs, guardlib
 from ..check import Stream, run_check
 from ..core import s_bool, s_exc, e_list
 
@@ -205,6 +205,122 @@ class FaultStream(Stream):
                 % __import__('json').dumps(c))
 
 
+
+# ---- values outside the model's domain --------------------------------------------------------------------------
+# The model's values are JSON-like (None, bool, int, float, str, list, tuple, dict).  The statement says "never raises,
+# always a strict boolean" for every inquiry; this stream offers the rest of what a caller may put into an inquiry.
+
+class _Opaque:
+    """a caller-defined object"""
+    def __init__(self, n):
+        self.n = n
+
+
+def exotic_value(rng, depth=2):
+    k = rng.randrange(16)
+    if k == 0:
+        return set(rng.sample(['admin', 'dev', 7, None, 2.5, ('a', 1), b'x', True], rng.randint(0, 4)))
+    if k == 1:
+        return frozenset(rng.sample(['a', 1, None, ('t',)], rng.randint(0, 3)))
+    if k == 2:
+        return rng.choice([b'', b'get', bytearray(b'ab')])
+    if k == 3:
+        return rng.choice([float('nan'), float('inf'), -0.0, 1e308, complex(1, 2)])
+    if k == 4:
+        return _Opaque(rng.randint(0, 3))
+    if k == 5:
+        return {rng.choice([1, None, ('a',), 2.5, True, 'k']): rng.choice([1, 'v', None]) for _ in range(rng.randint(1, 3))}
+    if k == 6:
+        return range(rng.randint(0, 3))
+    if k == 7:
+        return rng.choice([len, _Opaque, Ellipsis, NotImplemented, type(None)])
+    if k == 8:
+        return 10 ** rng.choice([20, 40, 400]) * rng.choice([1, -1])
+    if k == 9:
+        return rng.choice(['', '\x00', '\ud800', 'a' * 300, '\U0010ffff'])
+    if depth > 0:
+        if k == 10:
+            return [exotic_value(rng, depth - 1) for _ in range(rng.randint(0, 3))]
+        if k == 11:
+            return tuple(exotic_value(rng, depth - 1) for _ in range(rng.randint(0, 3)))
+        if k == 12:
+            return {rng.choice(['a', 'role', 'py/set', 'k']): exotic_value(rng, depth - 1) for _ in range(rng.randint(1, 3))}
+    return rng.choice(['get', 'Max', 5, None, True, ['a']])
+
+
+def run_exotic(c):
+    """decisions through a plain guard and through a cached guard (default LRU back-end and capacity 0)"""
+    import random
+    from vakt.guard import Guard, Inquiry
+    from vakt.cache import create_cached_guard
+    from vakt.storage.memory import MemoryStorage
+    rng = random.Random(c['vseed'])
+    vals = {f: exotic_value(rng) for f in ('resource', 'action', 'subject')}
+    ctx = rng.choice([None, {}, {'ip': exotic_value(rng)}, {'a': exotic_value(rng), 'b': exotic_value(rng)},
+                      exotic_value(rng)])
+    out = []
+    for mode in ('plain', 'cached', 'cached0'):
+        st = MemoryStorage()
+        for p in c['policies']:
+            st.add(specs.mk_policy(p))
+        ck = specs.mk_checker(c['checker'])
+        if mode == 'plain':
+            g = Guard(st, ck)
+        else:
+            g = create_cached_guard(st, ck, maxsize=16 if mode == 'cached' else 0)[0]
+        for rep in range(2):
+            try:
+                inq = Inquiry(context=ctx, **vals)
+                r = g.is_allowed(inq)
+                out.append('T' if r is True else 'F' if r is False else '<%s>' % type(r).__name__)
+            except BaseException as e:  # noqa
+                if core.fatal(e):
+                    raise
+                out.append('RAISED:%s:%s' % (mode, type(e).__name__))
+    return ' '.join(out)
+
+
+class ExoticInquiryStream(Stream):
+    name = 'inquiries_outside_the_model'
+    oracle_only = True
+    oracle_complete = True
+    rule = ('generated stores x 4 checkers; inquiry fields and context hold values OUTSIDE the model (sets and frozensets '
+            'with members that cannot be ordered, bytes, NaN/inf/complex, caller-defined objects, dictionaries with '
+            'non-string keys, ranges, functions and classes, huge ints, lone surrogates, nested up to depth 2); asked twice '
+            'through a plain guard, a cached guard and a cached guard of capacity 0. No model evaluation: only the '
+            'clause "never raises, strict boolean" and agreement of the six answers are judged')
+
+    def generate(self, rng, tier):
+        n = 400 if tier == 'quick' else 4000
+        for k in range(n):
+            sc = gen.scenario(rng, specs.CHECKERS[k % 4], n_policies=rng.choice([0, 1, 2, 3]), illtyped=0.0)
+            yield {'checker': sc['checker'], 'policies': sc['policies'], 'vseed': rng.randrange(10 ** 9)}
+
+    def emit(self, c):
+        return ''
+
+    def impl(self, c):
+        return run_exotic(c)
+
+    def oracle(self, c, obs):
+        parts = obs.split(' ')
+        bad = [p for p in parts if p not in ('T', 'F')]
+        if bad:
+            return 'a decision request raised or returned a non-boolean: %s' % bad[0]
+        if len(set(parts)) != 1:
+            return 'plain / cached guards disagree on one inquiry: %s' % obs
+        return None
+
+    def shrink(self, c):
+        ps = c['policies']
+        for i in range(len(ps)):
+            yield dict(c, policies=ps[:i] + ps[i + 1:])
+
+    def describe(self, c):
+        return ('import json; from harness.checks.c02 import run_exotic; '
+                'print(run_exotic(json.loads(%r)))' % __import__('json').dumps(c))
+
+
 TRUSTED = [
     'Coq 8.16.1 kernel + vm_compute (no native_compute)',
     'Model/Guard.v is_allowed_check over find_result (FRaise / FNone / lazily raising FIter), hand-written from '
@@ -217,8 +333,8 @@ ASSUME = ['non-Exception BaseExceptions propagate (stated: C02_total); exception
 
 
 def main(argv):
-    return run_check('C02', [FaultStream()], argv, trusted_base=TRUSTED, assumptions=ASSUME,
-                     translated=('guard', 'checker', 'parser', 'policy', 'on_generated', 'pin_rules', 'pin_util'))
+    return run_check('C02', [FaultStream(), ExoticInquiryStream()], argv, trusted_base=TRUSTED, assumptions=ASSUME,
+                     translated=('guard', 'checker', 'parser', 'policy', 'on_generated', 'rules', 'pin_rules', 'pin_util'))
 
 
 if __name__ == '__main__':
